@@ -63,6 +63,13 @@ CHECKS = {
         "bracketing-node predicate accepts floor/ceil/nearest cell conventions; astropy.io.fits trusted.",
         "DESIGN.md §4 C09",
     ),
+    "C10": (
+        "exploration",
+        "Hypothesis property-based differential testing with a harness-owned dask scheduler (partition tasks executed in a generated priority order, partition size overridden, replayable), real thread and process pools as a smoke differential, and fault injection through the public cloud call-back with generated exception types and positions",
+        "Batch result == one-at-a-time evaluation bit for bit for generated batches/partitionings/execution orders; kernel object state unchanged; every injected failure must surface as an error of the batch call. Intra-task thread interleavings are not controlled (stated limit). Evidence, not proof.",
+        "dask's synchronous executor with a replaced priority function is the owned scheduler; dask itself trusted.",
+        "DESIGN.md §4 C10",
+    ),
     "C18": (
         "exploration",
         "Hypothesis property-based testing: byte-level write/read round trips in HDF5 and FITS over generated grids, slice and row-interpolation checks against own scalar references; exhaustive enumeration of every node of the shipped tables against the samplers' preconditions",
